@@ -18,6 +18,7 @@ import (
 	"fmt"
 	"io"
 	"math/big"
+	"strings"
 	"time"
 
 	"github.com/markkurossi/mpc/ot"
@@ -680,6 +681,80 @@ func c18Mutations(r *RNG, kind int, cv c18Curve, enc, other, foreign []byte, for
 	return ms
 }
 
+// c18LengthPrefixMutations: STRUCTURED malformations of every length-prefixed
+// field (top level and nested): the field's uvarint is replaced by boundary
+// values (minimal encodings), by non-minimal encodings and by over-long
+// uvarints, the rest of the message is kept; when the nested prefix changes
+// size the enclosing chunk's own prefix is rewritten so that the nested field
+// is still reached.  Expected: an error, never a panic, never acceptance.
+func c18LengthPrefixMutations(kind int, cv c18Curve, enc []byte) []c18Mut {
+	if kind == c18R3 {
+		return nil // Round3 has no length-prefixed field
+	}
+	type variant struct {
+		class string
+		bytes []byte
+	}
+	variants := func(trueLen uint64) []variant {
+		vals := []struct {
+			class string
+			v     uint64
+		}{
+			{"0", 0}, {"1", 1}, {"len-1", trueLen - 1}, {"len+1", trueLen + 1},
+			{"limit", 1 << 20}, {"limit+1", 1<<20 + 1},
+			{"2^31-1", 1<<31 - 1}, {"2^31", 1 << 31}, {"2^32-1", 1<<32 - 1}, {"2^32", 1 << 32},
+			{"2^62", 1 << 62}, {"2^63-1", 1<<63 - 1}, {"2^63", 1 << 63}, {"2^63+1", 1<<63 + 1},
+			{"2^64-1", 1<<64 - 1},
+		}
+		var out []variant
+		for _, x := range vals {
+			out = append(out, variant{x.class, c18PaddedUvarint(x.v, 0)})
+		}
+		out = append(out,
+			variant{"len-nonminimal+1", c18PaddedUvarint(trueLen, 1)},
+			variant{"len-nonminimal+2", c18PaddedUvarint(trueLen, 2)},
+			variant{"0-nonminimal", c18PaddedUvarint(0, 1)},
+			variant{"overlong-11-bytes", append(bytes.Repeat([]byte{0x80}, 10), 0)},
+			variant{"overflow-10th-byte-2", append(bytes.Repeat([]byte{0xff}, 9), 2)},
+			variant{"overflow-10th-byte-7f", append(bytes.Repeat([]byte{0x80}, 9), 0x7f)})
+		return out
+	}
+	var ms []c18Mut
+	add := func(pos, class string, b []byte) {
+		ms = append(ms, c18Mut{name: "length-prefix:" + pos + ":" + class, segs: c18Auto(b)})
+	}
+	outerLen, k := binary.Uvarint(enc[10:])
+	if k <= 0 {
+		return nil
+	}
+	switch kind {
+	case c18R1, c18R2:
+		// the curve-name chunk at offset 10
+		for _, v := range variants(outerLen) {
+			b := append(cloneBytes(enc[:10]), v.bytes...)
+			add("curve-name", v.class, append(b, enc[10+k:]...))
+		}
+	case c18GS, c18ES:
+		// the session chunk at offset 10
+		for _, v := range variants(outerLen) {
+			b := append(cloneBytes(enc[:10]), v.bytes...)
+			add("session-chunk", v.class, append(b, enc[10+k:]...))
+		}
+		// the nested curve-name prefix, first bytes of the chunk
+		inner := enc[10+k:]
+		nameLen, k2 := binary.Uvarint(inner)
+		if k2 <= 0 {
+			return ms
+		}
+		for _, v := range variants(nameLen) {
+			chunk := append(cloneBytes(v.bytes), inner[k2:]...)
+			b := append(cloneBytes(enc[:10]), c18PaddedUvarint(uint64(len(chunk)), 0)...)
+			add("nested-curve-name", v.class, append(b, chunk...))
+		}
+	}
+	return ms
+}
+
 // c18Round3Mutations: Round3 payloads are 707146 bytes; the opaque regions
 // of the mutation bases are run-length segments.
 func c18Round3Mutations(r *RNG, sid uint64, n int) []c18Mut {
@@ -777,7 +852,11 @@ func c18EmitDecode(c *Ctx, kind int, cv c18Curve, m c18Mut, pristine bool) c18De
 	rep := c18Replay{Seed: c.Seed, Curve: dcv.name, Kind: c18KindName[kind], Mut: m.name, Bytes: hexHead(data)}
 	if d.class == clsPanic {
 		rep.What = "decoder panics: " + d.msg
-		c.Fail(fmt.Sprintf("c18:%s:panic:%s", c18KindName[kind], m.name), rep.What, rep)
+		key := fmt.Sprintf("c18:%s:panic:%s", c18KindName[kind], m.name)
+		if strings.HasPrefix(m.name, "length-prefix:") {
+			key = fmt.Sprintf("c18:%s:%s:panic", c18KindName[kind], m.name)
+		}
+		c.Fail(key, rep.What, rep)
 	}
 	if d.millis > 2000 {
 		rep.What = fmt.Sprintf("decoder took %d ms", d.millis)
@@ -1541,6 +1620,7 @@ func runC18(c *Ctx) error {
 		for _, k := range []int{c18R1, c18R2, c18GS, c18ES} {
 			r := c.rng.Fork()
 			muts := c18Mutations(r, k, cv, base.enc[k], other.enc[k], foreign.enc[k], fcv, nFlip)
+			muts = append(muts, c18LengthPrefixMutations(k, cv, base.enc[k])...)
 			for mi, m := range muts {
 				d := c18EmitDecode(c, k, cv, m, false)
 				// continuing with an accepted mutant costs a round: all in
